@@ -159,11 +159,17 @@ def main() -> int:
     for a in sys.argv[4:]:
         if a.startswith("--checks"):
             checks = a.split("=", 1)[1].split(",")
+    only = None
+    for a in sys.argv[4:]:
+        if a.startswith("--only="):
+            only = {int(x) for x in a.split("=", 1)[1].split(",") if x}
     scratch = tempfile.mkdtemp(prefix="mut-", dir="/tmp")
     repo = os.path.join(scratch, "repo")
     shutil.copytree("/repo", repo, ignore=shutil.ignore_patterns(".git", "__pycache__", "*.pyc", ".pytest_cache", "docs"))
     try:
         for n in range(start, min(stop, len(ss)), step):
+            if only is not None and n not in only:
+                continue
             kind, idx = ss[n]
             t = ast.parse(src)
             if not apply(t, kind, idx):
@@ -182,6 +188,8 @@ def main() -> int:
             rec["suite"] = r.stdout.strip()[:60]
             if " passed" not in r.stdout or "failed" in r.stdout or "error" in r.stdout:
                 rec["status"] = "killed-by-suite"
+            elif "--suite-only" in sys.argv:
+                rec["status"] = "survived-suite"
             else:
                 rec["status"] = "survived"
                 outdir = os.path.join(scratch, "out")
